@@ -190,7 +190,7 @@ class Gen:
     def areas(self):
         r, ctx = self.r, self.ctx
         fams = PROJ_FAMILIES + EPSG_FAMILIES
-        nb = ctx.n(36, 400)
+        nb = ctx.n(90, 900)
         for b in range(nb):
             fam = fams[b % len(fams)] if b < 2 * len(fams) else r.choice(fams)
             w, h = r.randint(1, 60), r.randint(1, 60)
@@ -330,7 +330,7 @@ class Gen:
 
     def swaths(self):
         r, ctx = self.r, self.ctx
-        nb = ctx.n(28, 300)
+        nb = ctx.n(70, 700)
         for b in range(nb):
             rws, cols = r.randint(1, 5), r.randint(1, 6)
             style = r.choice(["rand", "rand", "int", "f4", "nan", "rowsame"])
@@ -452,7 +452,7 @@ class Gen:
 
     def stacks(self):
         r, ctx = self.r, self.ctx
-        for b in range(ctx.n(14, 120)):
+        for b in range(ctx.n(40, 300)):
             fam = r.choice(PROJ_FAMILIES[:4])
             w = r.randint(1, 6)
             res = r.choice([1000.0, 500.0, 2500.0])
